@@ -21,6 +21,17 @@ pub struct Known {
     pub open_keys: BTreeMap<String, String>,
     /// finding title -> number of keys listed
     pub open_titles: BTreeMap<String, usize>,
+    /// (key prefix naming the failing call site, finding title)
+    pub open_prefixes: Vec<(String, String)>,
+}
+
+impl Known {
+    pub fn listed(&self, key: &str) -> Option<&String> {
+        if let Some(t) = self.open_keys.get(key) {
+            return Some(t);
+        }
+        self.open_prefixes.iter().find(|(p, _)| key.starts_with(p.as_str())).map(|(_, t)| t)
+    }
 }
 
 impl Known {
@@ -28,6 +39,7 @@ impl Known {
         let mut k = Known {
             open_keys: BTreeMap::new(),
             open_titles: BTreeMap::new(),
+            open_prefixes: vec![],
         };
         let path = format!("{}/known_findings.json", VERIF_DIR);
         let Ok(txt) = std::fs::read_to_string(&path) else {
@@ -45,6 +57,11 @@ impl Known {
                 let title = f["finding"].as_str().unwrap_or("?").to_string();
                 let keys = f["keys"].as_array().cloned().unwrap_or_default();
                 k.open_titles.insert(title.clone(), keys.len());
+                for pf in f["key_prefixes"].as_array().cloned().unwrap_or_default() {
+                    if let Some(s) = pf.as_str() {
+                        k.open_prefixes.push((s.to_string(), title.clone()));
+                    }
+                }
                 for key in keys {
                     if let Some(s) = key.as_str() {
                         k.open_keys.insert(s.to_string(), title.clone());
@@ -64,6 +81,7 @@ pub struct Sink {
     total: Mutex<BTreeMap<String, u64>>, // per clause, including dropped
     cap_per_clause: usize,
     per_clause_kept: Mutex<BTreeMap<String, usize>>,
+    prefix_matched: Mutex<BTreeMap<String, u64>>,
     pub start: Instant,
 }
 
@@ -75,8 +93,9 @@ impl Sink {
             known: Known::load(prop),
             viols: Mutex::new(BTreeMap::new()),
             total: Mutex::new(BTreeMap::new()),
-            cap_per_clause: 400,
+            cap_per_clause: std::env::var("VERIF_CAP").ok().and_then(|x| x.parse().ok()).unwrap_or(400),
             per_clause_kept: Mutex::new(BTreeMap::new()),
+            prefix_matched: Mutex::new(BTreeMap::new()),
             start: Instant::now(),
         }
     }
@@ -84,6 +103,13 @@ impl Sink {
     /// Record a violation. `key` must identify clause + exact operands + witness.
     pub fn report(&self, clause: &str, key: String, replay: Value, observed: String, expected: String) {
         let full_key = format!("{}|{}|{}", self.prop, clause, key);
+        if !self.known.open_keys.contains_key(&full_key) {
+            if let Some((_, title)) = self.known.open_prefixes.iter().find(|(p, _)| full_key.starts_with(p.as_str())) {
+                // a listed call site: counted, not stored
+                *self.prefix_matched.lock().unwrap().entry(title.clone()).or_insert(0) += 1;
+                return;
+            }
+        }
         *self.total.lock().unwrap().entry(clause.to_string()).or_insert(0) += 1;
         let listed = self.known.open_keys.contains_key(&full_key);
         let mut v = self.viols.lock().unwrap();
@@ -119,6 +145,10 @@ impl Sink {
         let mut out: Vec<Viol> = v.values().cloned().collect();
         out.sort_by(|a, b| (a.key.len(), &a.key).cmp(&(b.key.len(), &b.key)));
         out
+    }
+
+    pub fn prefix_matches(&self) -> BTreeMap<String, u64> {
+        self.prefix_matched.lock().unwrap().clone()
     }
 
     pub fn totals(&self) -> BTreeMap<String, u64> {
@@ -193,12 +223,21 @@ pub fn finish(
         }
     }
     // known findings
+    let pm = sink.prefix_matches();
     for (title, n) in &sink.known.open_titles {
         let r = reproduced.get(title).map(|s| s.len()).unwrap_or(0);
-        println!(
-            "KNOWN-FINDING: property={} {} ({}/{} listed inputs reproduced)",
-            sink.prop, title, r, n
-        );
+        let by_site = pm.get(title).copied().unwrap_or(0);
+        if sink.known.open_prefixes.iter().any(|(_, t)| t == title) {
+            println!(
+                "KNOWN-FINDING: property={} {} ({} explored inputs hit the listed call site; {}/{} listed inputs reproduced)",
+                sink.prop, title, by_site, r, n
+            );
+        } else {
+            println!(
+                "KNOWN-FINDING: property={} {} ({}/{} listed inputs reproduced)",
+                sink.prop, title, r, n
+            );
+        }
     }
     // unlisted: verify by replay twice, write replay file, print
     let dir = format!("{}/replays/{}", VERIF_DIR, sink.prop);
@@ -252,6 +291,13 @@ pub fn finish(
             totals
         );
     }
+    if let Ok(path) = std::env::var("VERIF_DUMP") {
+        let mut out = String::new();
+        for v in &unlisted {
+            out.push_str(&format!("{}\t{}\t{}\n", v.key, v.observed, v.expected));
+        }
+        let _ = std::fs::write(path, out);
+    }
     let n_unlisted = unlisted.len();
     let wall = sink.start.elapsed().as_secs_f64();
     // evidence
@@ -291,6 +337,7 @@ pub fn finish(
             .map(|(k, v)| (k.clone(), v.len()))
             .collect::<BTreeMap<_, _>>()),
     );
+    cov.insert("known_findings_matched_by_call_site".into(), json!(pm));
     for (k, v) in &ev.extra {
         cov.insert(k.clone(), v.clone());
     }
